@@ -8,6 +8,9 @@ OBLIGATIONS = [
     "KafVerif.C43.join_refreshes",
     "KafVerif.C43.no_early_expiry",
     "KafVerif.C43.no_early_expiry_pass",
+    "KafVerif.C43.persisted_heartbeat_current",
+    "KafVerif.C43.heartbeat_survives_failover",
+    "KafVerif.C43.no_early_expiry_across_failover",
     "KafVerif.C43.cleanup_pass",
     "KafVerif.C43.expiry_happens",
     "KafVerif.C43.lagger_dropped",
@@ -30,7 +33,7 @@ TECHNIQUE = "Lean 4 proof over a hand-written timed model + Go/Lean differential
 
 PROFILE = G.profile(etcd_quick=3, etcd_thorough=30, weights={"tick": 14, "hb": 8, "hball": 10, "join": 8, "sync": 5, "commit": 1, "fetch": 0, "leave": 1, "fail": 0,
                              "failover": 1, "failover_lazy": 0, "meta": 0, "cleanup": 3, "tickonly": 3},
-                    timeouts=[10000, 20000, 30000], tick_base=[10, 10, 10, 20, 20, 30], start_converged=60)
+                    timeouts=[10000, 20000, 30000], tick_base=[10, 10, 10, 20, 20, 30], start_converged=60, cadence=35)
 RULE = ("timed membership histories on virtual time (ticks of 10/20/30 s +-1..4 s, sessions and rebalance timeouts of 10/20/30 s, "
         "heartbeats during Stable and during rebalances), generated from VERIF_SEED; non-trivial = a group reached Stable; "
         "distinct = distinct implementation traces")
